@@ -46,9 +46,7 @@ OUTSIDE = ['trees deeper or wider than T', 'the "unboundedly by seeded sampling"
            'where the document is silent (checkpoint with no previous phase record: ERROR today) the spec mirrors the observed behaviour and says so']
 
 
-# deviation kinds: (behaviour code, measurement kind); index 0 is nominal.
-KINDS = ((0, 0), (2, 0), (4, 0), (6, 0), (5, 0), (3, 0), (0, 1),          # quick: 0..6
-         (8, 0), (10, 0), (9, 0), (7, 0), (0, 2), (1, 3))                  # thorough adds 7..12
+KINDS = TC.KINDS
 BEH = tuple(k[0] for k in KINDS)
 
 
